@@ -332,8 +332,10 @@ func (f *MemFile) ReadDir(n int) (entries []fs.DirEntry, err error) {
 	}
 
 	if f.dirEntries == nil {
+		// both views are taken together: ReadDir and Readdirnames share one position.
 		nd.mu.RLock()
 		f.dirEntries = nd.dirEntries()
+		f.dirNames = nd.dirNames()
 		nd.mu.RUnlock()
 
 		f.dirIndex = 0
@@ -409,7 +411,9 @@ func (f *MemFile) Readdirnames(n int) (names []string, err error) {
 	}
 
 	if f.dirNames == nil {
+		// both views are taken together: ReadDir and Readdirnames share one position.
 		nd.mu.RLock()
+		f.dirEntries = nd.dirEntries()
 		f.dirNames = nd.dirNames()
 		nd.mu.RUnlock()
 
